@@ -39,7 +39,7 @@ func scenarios(tier string) []vlib.Scenario {
 	var out []vlib.Scenario
 	seen := map[string]bool{}
 	add := func(p params) {
-		if (p.Pending == "read" && !strings.Contains(p.Streams, "down")) || (p.Pending == "write" && !strings.Contains(p.Streams, "up")) {
+		if (p.Pending == "queued" && !strings.Contains(p.Streams, "down")) || (p.Pending == "read" && !strings.Contains(p.Streams, "down")) || (p.Pending == "write" && !strings.Contains(p.Streams, "up")) {
 			return
 		}
 		if p.Streams == "none" && p.Order == "streams-first" {
@@ -65,6 +65,16 @@ func scenarios(tier string) []vlib.Scenario {
 		}
 	}
 	add(params{Streams: "none", Pending: "call", Failure: "none", Order: "conn-only", Conc: true, P: 1})
+	// items the broker delivered are still queued in the downstream when it is closed: later reads fail all the same
+	for _, o := range []string{"streams-first", "conn-only"} {
+		add(params{Streams: "down", Pending: "queued", Failure: "none", Order: o, P: 1})
+	}
+	// the resume is refused and the close request the library sends for the refused stream is never answered;
+	// the application closes the streams meanwhile
+	for _, st := range []string{"up", "down", "up+down"} {
+		add(params{Streams: st, Pending: "none", Failure: "refused-noclose", Order: "streams-first"})
+		add(params{Streams: st, Pending: "none", Failure: "refused-noclose", Order: "streams-first", P: 1})
+	}
 	add(params{Streams: "up+down", Pending: "none", Failure: "cut", Order: "conn-first", P: 1})
 	if tier == "thorough" {
 		for _, s := range []string{"up", "down", "up+down"} {
@@ -86,7 +96,7 @@ func config(sc vlib.Scenario, tier string) vsched.Config {
 	cfg := vsched.Config{Preempt: 1, Switch: 1, SelCase: 1, Stall: 1, Timer: -1, Horizon: 150 * time.Second, MaxSteps: 600000}
 	cfg.Budget[vsched.BudP] = p.P
 	cfg.Scope = func(site string) bool {
-		for _, s := range []string{".Close", ".close", "closeWithError", "iscp.(*Conn).run", "iscp.(*Conn).reconnect", "ConnectWithConfig.func", "eventDispatcher", "OpenUpstream.func", "OpenDownstream.func", "(*Upstream).run", "(*Downstream).run", "flushAckLoop", "iscp.(*connStatus)"} {
+		for _, s := range []string{".Close", ".close", "closeWithError", "iscp.(*Conn).run", "iscp.(*Conn).reconnect", "ConnectWithConfig.func", "eventDispatcher", "OpenUpstream.func", "OpenDownstream.func", "(*Upstream).run", "(*Downstream).run", "flushAckLoop", "iscp.(*connStatus)", "(*Downstream).ReadDataPoints", "(*Downstream).ReadMetadata", "(*Upstream).resume", "(*Downstream).resume"} {
 			if strings.Contains(site, s) {
 				return true
 			}
@@ -105,6 +115,7 @@ type post struct {
 }
 
 type world struct {
+	closeReqs int
 	kit.World
 	p          params
 	posts      []*post
@@ -129,6 +140,10 @@ func (w *world) script() *sim.Script {
 		}
 		return true, 0
 	}
+	if w.p.Failure == "refused-noclose" {
+		s.UpResumeResult = func(c *sim.BConn, u *sim.UpStream, attempt int) message.ResultCode { return message.ResultCodeStreamNotFound }
+		s.DownResumeResult = func(c *sim.BConn, d *sim.DownStream, attempt int) message.ResultCode { return message.ResultCodeStreamNotFound }
+	}
 	if w.p.Failure == "refused" {
 		// the broker refuses the resume of every stream and also answers their close requests with a failure
 		s.UpResumeResult = func(c *sim.BConn, u *sim.UpStream, attempt int) message.ResultCode { return message.ResultCodeStreamNotFound }
@@ -141,6 +156,15 @@ func (w *world) script() *sim.Script {
 		}
 	}
 	s.OnMessage = func(b *sim.Broker, c *sim.BConn, m message.Message) bool {
+		if w.p.Failure == "refused-noclose" && c.Idx > 0 {
+			switch m.(type) {
+			case *message.UpstreamCloseRequest, *message.DownstreamCloseRequest:
+				w.closeReqs++
+				if w.closeReqs <= len(w.Ups)+len(w.Downs) {
+					return true // the library's own close request for the refused stream: never answered
+				}
+			}
+		}
 		if w.p.Failure == "cutresume" && c.Idx > 0 {
 			switch m.(type) {
 			case *message.UpstreamResumeRequest, *message.DownstreamResumeRequest:
@@ -235,6 +259,18 @@ func (w *world) main() {
 		vsched.Go("h:pending", func() { _, w.pendErr = w.Conn.ReceiveCall(pctx); w.pendDone = true })
 	case "write":
 		w.Ups[0].Write(sctx, kit.IDA, "unflushed")
+	case "queued":
+		c := w.B.Live()
+		for i := 0; i < 2; i++ {
+			w.B.Send(c, &message.DownstreamChunk{
+				StreamIDAlias:   w.B.Downs[0].Alias,
+				UpstreamOrAlias: &message.UpstreamInfo{SessionID: "s", SourceNodeID: "src", StreamID: sim.StreamUUID('x', 1)},
+				StreamChunk: &message.StreamChunk{SequenceNumber: uint32(i + 1), DataPointGroups: []*message.DataPointGroup{
+					{DataIDOrAlias: &message.DataID{Name: "a", Type: "t"}, DataPoints: []*message.DataPoint{{ElapsedTime: 1, Payload: []byte("queued")}}},
+				}},
+			})
+			w.B.Send(c, &message.DownstreamMetadata{RequestID: message.RequestID(7001 + 2*i), StreamIDAlias: w.B.Downs[0].Alias, SourceNodeID: "src", Metadata: &message.BaseTime{Name: "queued"}})
+		}
 	}
 	vsched.Quiesce()
 	w.Phase = "failure"
@@ -363,7 +399,7 @@ func run(sc vlib.Scenario, cfg vsched.Config) (*vsched.Result, vlib.Verdict) {
 		}
 	}
 	// the pending operation must have been released by the close
-	if w.p.Pending != "none" && w.p.Pending != "write" {
+	if w.pendKind != "" {
 		if !w.pendDone {
 			v.Fail("C10.pending", w.pendKind+"/still-blocked/"+w.p.Order, "%s pending at the time of the close was never released", w.pendKind)
 		} else if w.pendErr == nil {
